@@ -17,6 +17,9 @@
 (*   "shallow_str_listified"  shallow_round's around() iterated a string    *)
 (*                            and rebuilt it with str(list): 'ab' became    *)
 (*                            "['a', 'b']"                                  *)
+(*   "iter_error_propagates"  isiterable() let every error of iter(x) but    *)
+(*                            TypeError through: deep rounding of a call     *)
+(*                            that holds a closed file raised ValueError     *)
 (*   "deep_rebuild_raises"    deep_round rebuilt every iterable with        *)
 (*                            type(j)(elements): range and namedtuple       *)
 (*                            arguments raised TypeError                    *)
@@ -59,6 +62,7 @@ Leaf(i) == CASE i = 1 -> F(1, 2)      \* 0.5    tol 0: 0.0
              [] i = 27 -> I(25)
              [] i = 28 -> [t |-> "iter", v |-> 2, d |-> 1, c |-> <<>>]   \* a one-shot iterator with two float items left
              [] i = 29 -> [t |-> "cls", v |-> 1, d |-> 1, c |-> <<>>]    \* a class object (int)
+             [] i = 30 -> [t |-> "badit", v |-> 1, d |-> 1, c |-> <<>>]  \* an object whose iter() raises ValueError (a closed file)
              [] OTHER -> I(0)
 Leaves == {Leaf(i) : i \in FloatIds \cup OtherIds}
 
@@ -115,6 +119,8 @@ DeepArg(j, tol) ==
             ELSE [j EXCEPT !.c = [i \in 1..Len(j.c) |-> [j.c[i] EXCEPT !.c = <<DeepArg(j.c[i].c[1], tol)>>]]]
   ELSE IF j.t \in {"list", "tuple", "set", "fset"}  \* isiterable: type(j)(deep_round(*j)[0])
        THEN [j EXCEPT !.c = [i \in 1..Len(j.c) |-> DeepArg(j.c[i], tol)]]
+  ELSE IF j.t = "badit"                              \* isiterable(j) calls iter(j), and only expected a TypeError
+       THEN IF "iter_error_propagates" \in Deviations THEN FAIL ELSE j
   ELSE IF j.t \in {"range", "ntuple", "ipnet", "iter"}   \* iterable, but type(j)(tuple of elements) raises / an iterator is not consumed
        THEN IF "deep_rebuild_raises" \in Deviations THEN FAIL ELSE j      \* (kept as it is)
   ELSE j
